@@ -108,15 +108,18 @@ struct Filt {
                 h = mix(h, v);
             }
         };
+        // private members are read through VF_TRY: a tree that renames them still builds (state counts degrade, verdict unaffected)
         if (kind == K_RLS) {
-            add(rls->_w);
-            add(rls->_u);
-            add(rls->_p);
-            h = mix(h, rls->_locked);
+            auto& f = *rls;
+            VF_TRY(f, (add(o._w), 0), 0);
+            VF_TRY(f, (add(o._u), 0), 0);
+            VF_TRY(f, (add(o._p), 0), 0);
+            h = mix(h, (uint64_t)VF_TRY(f, (int)o._locked, (int)f.coeffs_locked()));
         } else {
-            add(lms->_w);
-            add(lms->_u);
-            h = mix(h, lms->_locked);
+            auto& f = *lms;
+            VF_TRY(f, (add(o._w), 0), 0);
+            VF_TRY(f, (add(o._u), 0), 0);
+            h = mix(h, (uint64_t)VF_TRY(f, (int)o._locked, (int)f.coeffs_locked()));
         }
         return h;
     }
